@@ -467,12 +467,12 @@ class MetadorGroup(MetadorNode):
         # fix up target path
         dst_path: str
         if isinstance(dest, str):
-            self._guard_path(dest)
             dst_path = dest
         elif isinstance(dest, MetadorGroup):
             dst_path = dest.name + f"/{dst_name}"
         else:
             raise ValueError("Copy dest must be path or Group!")
+        self._guard_path(dst_path)
 
         # get other allowed options
         without_attrs: bool = kwargs.pop("without_attrs", False)
